@@ -8,7 +8,7 @@ Proof.
   repeat (apply andb_prop in H; destruct H as [H ?]).
   f_equal; try (apply internal_verb_dec_bl || apply internal_fmtc_dec_bl || apply internal_fsrc_dec_bl
     || apply internal_otyp_dec_bl || apply internal_tgt_dec_bl || apply internal_prs_dec_bl); try assumption.
-  apply Bool.eqb_prop; assumption.
+  all: apply Bool.eqb_prop; assumption.
 Qed.
 
 Lemma meth_eqb_eq a b : meth_eqb a b = true -> a = b.
@@ -46,14 +46,15 @@ Qed.
 Lemma all_cells_complete : forall c, valid c = true -> In c all_cells.
 Proof.
   intros c Hv. unfold all_cells. apply filter_In. split; [|exact Hv].
-  destruct c as [v f s o n t p]. unfold product.
+  destruct c as [v f s o n t p d]. unfold product.
   apply in_flat_map; exists v; split; [destruct v; simpl; tauto|].
   apply in_flat_map; exists f; split; [destruct f; simpl; tauto|].
   apply in_flat_map; exists s; split; [destruct s; simpl; tauto|].
   apply in_flat_map; exists o; split; [destruct o; simpl; tauto|].
   apply in_flat_map; exists n; split; [destruct n; simpl; tauto|].
   apply in_flat_map; exists t; split; [destruct t; simpl; tauto|].
-  apply in_map. destruct p; simpl; tauto.
+  apply in_flat_map; exists p; split; [destruct p; simpl; tauto|].
+  apply in_map. destruct d; simpl; tauto.
 Qed.
 
 Section Table.
